@@ -143,6 +143,11 @@ def insertSorted (x : Int) : List Int → List Int
 /-- `sorted(l)` on integers -/
 def sorted (l : List Int) : List Int := l.foldl (fun acc x => insertSorted x acc) []
 
+/-- `itertools.combinations(l, 2)` as pairs, in Python's order -/
+def combos2 {α : Type} : List α → List (α × α)
+  | [] => []
+  | x :: xs => xs.map (fun y => (x, y)) ++ combos2 xs
+
 /-! ### `None` -/
 
 /-- using a possibly-`None` value where a number / sequence is needed: TypeError on `None` -/
